@@ -272,3 +272,8 @@ pub(crate) fn split_os_argument_fallback(
         Some(Arg::ArgWord(OsString::from(chars.collect::<String>()))),
     ))
 }
+
+#[cfg(kani)]
+mod verif_kani {
+    include!(concat!(env!("PACAK_BPAF_VERIF_DIR"), "/kani/arg.rs"));
+}
